@@ -294,6 +294,25 @@ def check(ctx):
         if not okg:
             o5.fail(P, 'Environment.schedule_event', None, 'the insertion is not protected by a raising guard equivalent to `time < now`', node=ins,
                     detail={'candidate_guards': [n.src() for n, _ in guards]})
+        # every request that is not rejected is queued: no normal way out of schedule_event that bypasses the insertion
+        o5.count()
+        if g.exit in g.reach([g.entry], avoid={ins.id}, follow=lambda l: l != 'exc'):
+            path = g.shortest_path(g.entry, g.exit, follow=lambda l: l != 'exc')
+            o5.fail(P, 'Environment.schedule_event', 'bisect.insort(self._events, new_event)',
+                    'schedule_event can return normally without having queued the event (a request that is dropped -- because it looks like a duplicate, is held back, '
+                    'or is deferred to another container -- never runs, or escapes pause/cancel)', file=Env.mod.path, line=fn.lineno)
+        else:
+            o5.witness('always-queued')
+        # the parameters that fix when, for whom and what runs are not changed between the call and the construction of the Event
+        o5.count()
+        reass = [n for n in g.nodes.values() if n.kind == 'stmt' and n.frame is g.top and isinstance(n.ast, (ast.Assign, ast.AugAssign, ast.AnnAssign))
+                 and any(isinstance(t, ast.Name) and t.id in ('time', 'asset_id', 'action', 'event_type')
+                         for t in (n.ast.targets if isinstance(n.ast, ast.Assign) else [n.ast.target]) for t in ast.walk(t) if isinstance(t, ast.Name) and isinstance(t.ctx, ast.Store))]
+        for n in reass:
+            o5.fail(P, 'Environment.schedule_event', None, 'schedule_event changes the requested time / owner / action / priority before queuing the event: '
+                    'the event runs at another instant (or for another asset) than the one every caller computed', node=n)
+        if not reass:
+            o5.witness('parameters-kept')
         # Event(...) built from own parameters
         evc = [c for n in g.nodes.values() for c in calls_at(g, n) if isinstance(c.func, ast.Name) and c.func.id == 'Event']
         o5.count()
